@@ -437,7 +437,7 @@ func CheckC12(e *Env) (int, error) {
 func CheckC14(e *Env) (int, error) {
 	plan := parsimPlan{nGen: 24, inputs: 30, optsPer: 2, runs: 24000, raceRuns: 1600, chunk: 300, coldRuns: 160, stmtYields: true}
 	if e.Tier == "thorough" {
-		plan = parsimPlan{nGen: 120, inputs: 60, optsPer: 4, runs: 600000, raceRuns: 40000, chunk: 4000, coldRuns: 2400, stmtYields: true}
+		plan = parsimPlan{nGen: 120, inputs: 60, optsPer: 4, runs: 400000, raceRuns: 12000, chunk: 4000, coldRuns: 1600, stmtYields: true}
 	}
 	return parsimCheck(e, "C14", "c14", plan)
 }
@@ -490,7 +490,7 @@ func parsimCheck(e *Env, prop, mode string, plan parsimPlan) (int, error) {
 	}
 	var raceAgg *parsimAgg
 	if plan.raceRuns > 0 {
-		raceAgg, err = rig.sweep(mode, e.Seed, plan.raceRuns, true, max(10, plan.raceRuns/(e.Jobs*2)), 30*time.Minute)
+		raceAgg, err = rig.sweep(mode, e.Seed, plan.raceRuns, true, min(150, max(10, plan.raceRuns/(e.Jobs*2))), 45*time.Minute)
 		if err != nil {
 			return 2, err
 		}
